@@ -10,7 +10,7 @@ from vlib.runner import Violation, sut
 from vlib.spec import build, spec_scope
 
 ID = "C13"
-BUDGET = {"quick": 640, "thorough": 12000}
+BUDGET = {"quick": 640, "thorough": 36000}
 RULE = ("Generated: smooth&decomposable DAGs (<= 4 variables, every input type, Hadamard/Kronecker, n-ary sums, "
         "shared sub-circuits, multi-output) with real or complex parameters x semiring x value profile x batch; a "
         "drawn real functional L = sum_{b,o,k} w*Re(lin y) + u*Im(lin y) (linear space) or sum w*Re(y) (raw log "
